@@ -148,7 +148,7 @@ def run(ctx):
             if len(res.failures) >= 5:
                 return res
 
-    n_walks = 6000 if ctx.thorough else 500
+    n_walks = 12000 if ctx.thorough else 1500
     for k in range(n_walks):
         msg = k % 4 == 3
         g = H.Gen(rng, encodable=msg)
